@@ -680,6 +680,9 @@ pub fn run(session: &Session) -> i32 {
     for p in crate::genr::nearmiss::control_placement_programs() {
         cases.push(json!({"src": "control-placement", "text": p}));
     }
+    for p in crate::genr::nearmiss::conditional_declaration_programs() {
+        cases.push(json!({"src": "conditional-declaration", "text": p}));
+    }
     for p in crate::genr::nearmiss::redeclaration_programs() {
         cases.push(json!({"src": "redeclaration", "text": p}));
     }
